@@ -9,10 +9,11 @@ with
            ("param", owner_fq, name)  a parameter of `owner`
            ("global", dotted)         module / class level state
            ("unknown", text)
-    level  0 = the root object itself
-           1 = an object *owned* by the root: created by the root's own methods and only stored inside it (e.g. `self._cache = {}`);
-               when the root itself turns out to be a fresh object at a call site, its owned parts are fresh too
-           2 = an object merely reachable from the root (handed in from outside: constructor arguments, elements of argument lists)
+    level  0  = the root object itself
+           1  = an object *owned* by the root: created by the root's own methods and only stored inside it (e.g. `self._cache = {}`);
+                when the root itself turns out to be a fresh object at a call site, its owned parts are fresh too
+           11 = an object found exactly one step inside the root (a field / element handed in from outside), 12 = two steps inside
+           2  = an object reachable from the root at unknown depth
 
 The analysis is flow-insensitive inside a function (a local is the join of all its bindings), field-sensitive for instance
 attributes of repo classes (own vs. shared, from all stores in the class hierarchy), and inter-procedural through return
@@ -42,7 +43,7 @@ _NOC = (frozenset(),) * K
 @dataclass(frozen=True)
 class Value:
     """obj: what the object itself may be.  content[i]: roots of the objects explicitly stored at depth i+1 inside it (the last
-    level absorbs everything deeper).  Implicitly, whatever lies inside an object tagged (r, 0) or (r, 2) belongs to r as well, and
+    level absorbs everything deeper).  Implicitly, whatever lies inside an object tagged (r, l) with l != 1 belongs to r as well, and
     whatever lies inside an object found at some content level belongs to the same root."""
 
     obj: frozenset = frozenset()
@@ -134,26 +135,59 @@ def tuples_of(values) -> Value:
     return Value(frozenset({(FRESH, 0)}), join_content(shifted_elems(v, 2) for v in values))
 
 
+ANY, AT1, AT2 = 2, 11, 12
+_DEEPER = {0: AT1, AT1: AT2, AT2: ANY, ANY: ANY, 1: 1}
+
+
 def elem(v: Value) -> Value:
     """An object stored directly inside `v` (element, value of a mapping, attribute of unknown kind)."""
     obj = set()
     for r, l in v.obj:
         if r == FRESH:
             obj.add((FRESH, 0))
-        elif l == 1:
-            obj.add((r, 1))
         else:
-            obj.add((r, 2))
+            obj.add((r, _DEEPER[l]))
     for r in v.content[0]:
-        obj.add((r, 2))
+        obj.add((r, ANY))
     return Value(frozenset(obj), tuple(v.content[min(i + 1, K - 1)] for i in range(K)))
 
 
 def own(v: Value) -> Value:
     obj = set()
     for r, l in v.obj:
-        obj.add((r, 0) if r == FRESH else (r, max(l, 1)))
+        obj.add((r, 0) if r == FRESH else (r, 1) if l == 0 else (r, l))
     return Value(frozenset(obj), v.content)
+
+
+def reach(v: Value) -> Value:
+    """Anything inside `v`, at any depth."""
+    obj = set()
+    for r, l in v.obj:
+        if r == FRESH:
+            obj.add((FRESH, 0))
+        elif l == 1:
+            obj.add((r, 1))  # what an owned part holds from outside is listed in its content
+        else:
+            obj.add((r, ANY))
+    allc = set()
+    for c in v.content:
+        allc |= c
+    for r in allc:
+        obj.add((r, ANY))
+    return Value(frozenset(obj), (frozenset(allc),) * K)
+
+
+def project(a: Value, level: int) -> Value:
+    """The objects a tag of the given level, rooted at a parameter bound to `a`, stands for in the caller."""
+    if level == 0:
+        return a
+    if level == 1:
+        return own(a)
+    if level == AT1:
+        return elem(a)
+    if level == AT2:
+        return elem(elem(a))
+    return reach(a)
 
 
 GROW = {"add", "update", "append", "extend", "insert", "setdefault", "appendleft", "add_node", "add_edge", "add_nodes_from", "add_edges_from", "add_weighted_edges_from"}
@@ -645,7 +679,7 @@ class Roots:
                 generic = True
         if generic or not members(bt):
             out = out | elem(base)
-        glob = frozenset((r, 2) for r, _l in base.obj if r[0] == "global")
+        glob = frozenset((r, ANY) for r, _l in base.obj if r[0] == "global")
         if glob:
             out = Value(out.obj | glob, out.content)
         return out
@@ -665,16 +699,21 @@ class Roots:
             if r == FRESH:
                 if fv.has_own:
                     obj.add((FRESH, 0))
-            elif l == 2:
-                obj.add((r, 2))
-            else:
+            elif l == 0:
                 if fv.has_own:
                     obj.add((r, 1))
                 if fv.has_shared:
-                    obj.add((r, 2))
+                    obj.add((r, AT1))
+            elif l == 1:
+                if fv.has_own:
+                    obj.add((r, 1))
+                if fv.has_shared:
+                    obj.add((r, ANY))
+            else:
+                obj.add((r, _DEEPER[l]))
         if fv.has_shared:
             for r in base.content[0]:
-                obj.add((r, 2))
+                obj.add((r, ANY))
         if fv.has_shared or fv.content_shared:
             # what the field's object holds came from outside the instance: anything the instance can reach
             allr = base.roots
@@ -740,16 +779,9 @@ class Roots:
             if a is None:
                 obj.add((r, l))
                 continue
-            if l == 0:
-                obj |= a.obj
-                parts.append(a.content)
-            elif l == 1:
-                obj |= own(a).obj
-                parts.append(a.content)
-            else:
-                ea = elem(a)
-                obj |= ea.obj
-                parts.append((a.roots,) * K)
+            pa = project(a, l)
+            obj |= pa.obj
+            parts.append(pa.content)
         for i, c in enumerate(v.content):
             for r in c:
                 a = self._bound(r, callee, binding)
@@ -972,7 +1004,7 @@ class Roots:
             elif isinstance(t, ast.Subscript):
                 out.append(Write(f, n, t.value, "item-store", "[]", "grow", path_of(t.value)))
             elif isinstance(t, ast.Name) and aug is not None:
-                if any(m[0] == "b" and m[1] in ("list", "set", "dict", "seq") for m in members(self.type_of(f, t))):
+                if any(m[0] == "b" and m[1] in ("list", "set", "dict", "seq", "iter") for m in members(self.type_of(f, t))):
                     op = aug.op  # type: ignore[attr-defined]
                     out.append(Write(f, n, t, "aug", type(op).__name__, "shrink" if isinstance(op, (ast.Sub, ast.BitAnd)) else "grow", ""))
 
@@ -1144,7 +1176,7 @@ class EffectSummaries:
                                 if self._add(f, tag, e.write, [f.fq] + e.path, where):
                                     changed = True
                             continue
-                        new = a.obj if l == 0 else own(a).obj if l == 1 else elem(a).obj
+                        new = project(a, l).obj
                         for nt in new:
                             if nt[0] == FRESH:
                                 continue
